@@ -7,16 +7,13 @@ h*f*B) and write integer events; every clause is evaluated by TLC.
 """
 import copy
 import json
-import math
-import random
-from pathlib import Path
 
 import numpy as np
 
 from harness import tlc
 from harness.core import Machinery
-from harness.gnpy_util import udb, EX, TD, INF
-from harness.record import Recording
+from harness.gnpy_util import udb, EX, TD
+from harness.record import Recording, snapshot as snapshot_of      # noqa: F401 (snapshot_of is used by the checks)
 
 H_PLANCK = 6.62607015e-34
 
@@ -123,7 +120,9 @@ def roadm_event(ev, max_ch=12):
     for k in pick_channels(len(pin), max_ch):
         ch.append({'baudDb': udb(db(pre['baud_rate'][k] / 1e9)), 'slotDb': udb(db(pre['slot_width'][k] / 1e9)),
                    'offset': udb(pre['delta_pdb_per_channel'][k]), 'in': udb(pin[k]), 'maxloss': udb(ml[k]),
-                   'out': udb(pout[k])})
+                   'out': udb(pout[k]),
+                   # what the element reports about this crossing (must be projected before it is crossed again)
+                   'lossRep': udb(el.loss_pch_db[k]), 'poutRep': udb(el.pch_out_dbm[k])})
     return {'k': 'Roadm', 'uid': el.uid, 'npol': npol, 'node': node, 'deg': deg, 'ch': ch}
 
 
@@ -162,6 +161,23 @@ def alone_contribution(ev):
                                                                'frequency')}
 
 
+class Contributions:
+    """own contributions of the elements, each measured ONCE by crossing a deep copy of the element alone from a zero
+    state (keyed by element, crossing arguments and channel plan)"""
+
+    def __init__(self):
+        self.cache = {}
+        self.measured = 0
+
+    def get(self, ev):
+        f = ev['pre']['frequency']
+        key = (ev['cls'], ev['uid'], id(ev.get('el')), tuple(sorted(ev['args'].items())), len(f), float(f[0]), float(f[-1]))
+        if key not in self.cache:
+            self.cache[key] = alone_contribution(ev)
+            self.measured += 1
+        return self.cache[key]
+
+
 def match_channels(pre, post):
     """index pairs (i in pre, j in post) of the channels that left the element (an amplifier drops out-of-band ones)"""
     pos = {float(f): i for i, f in enumerate(pre['frequency'])}
@@ -180,7 +196,7 @@ def fiber_alpha_l(el, freqs):
     return a * p.length
 
 
-def fiber_event(ev, raman_on, max_ch=12, with_acc=True):
+def fiber_event(ev, raman_on, max_ch=12, with_acc=True, contrib=None):
     el, pre, post = ev['el'], ev['pre'], ev['post']
     p = el.params
     n = len(pre['frequency'])
@@ -191,18 +207,18 @@ def fiber_event(ev, raman_on, max_ch=12, with_acc=True):
          'lumped': udb(sum(float(x['loss']) for x in p.lumped_losses)), 'raman': 1 if raman_on else 0,
          'ch': [{'alphaL': udb(al[k]), 'in': udb(pin[k]), 'out': udb(pout[k])} for k in sel]}
     if with_acc:
-        d = alone_contribution(ev)
+        d = contrib.get(ev) if contrib else alone_contribution(ev)
         e.update(acc_fields(pre, post, d, sel, sel))
     return e
 
 
-def acc_event(ev, max_ch=12):
+def acc_event(ev, max_ch=12, contrib=None):
     """accumulators around a Roadm / Edfa crossing (channels matched by frequency: an amplifier drops out-of-band
     channels), with the element's own contribution measured alone"""
     pre, post = ev['pre'], ev['post']
     pairs = match_channels(pre, post)
     pick = [pairs[k] for k in pick_channels(len(pairs), max_ch)]
-    d = alone_contribution(ev)
+    d = contrib.get(ev) if contrib else alone_contribution(ev)
     dpos = {float(f): i for i, f in enumerate(d['frequency'])}
     e = {'k': 'Acc', 'uid': ev['uid'], 'cls': ev['cls']}
     ip = [i for i, _ in pick]
@@ -268,6 +284,45 @@ def edfa_event(ev, gain_set, max_ch=12):
          'inb': [{'f': mhz(f), 'w': mhz(w)} for f, w in zip(pre['frequency'], pre['slot_width'])],
          'outb': [{'f': mhz(f), 'w': mhz(w)} for f, w in zip(post['frequency'], post['slot_width'])]}
     return e
+
+
+# --------------------------------------------------------------------------------------- small designed line network
+_EQPT = None
+
+
+def base_eqpt():
+    """a fresh copy of the shipped equipment library (JSON form) to which a check appends its own entries"""
+    global _EQPT
+    if _EQPT is None:
+        _EQPT = json.loads((EX / 'eqpt_config.json').read_text())
+    return copy.deepcopy(_EQPT)
+
+
+def line_topology(roadm_b_params, roadm_variety='verif', amp_variety=None, amp_operational=None):
+    """trx/roadm A - B - C (both directions), explicit amplifiers so that degree uids are known before the design;
+    amplifiers are auto-designed unless amp_variety is given"""
+    els, cx = [], []
+    for s in 'ABC':
+        els.append({'uid': f'trx {s}', 'type': 'Transceiver'})
+        r = {'uid': f'roadm {s}', 'type': 'Roadm', 'type_variety': roadm_variety}
+        if s == 'B':
+            r['params'] = roadm_b_params
+        els.append(r)
+        cx += [{'from_node': f'trx {s}', 'to_node': f'roadm {s}'}, {'from_node': f'roadm {s}', 'to_node': f'trx {s}'}]
+    for a, b in (('A', 'B'), ('B', 'C'), ('C', 'B'), ('B', 'A')):
+        for uid in (f'booster {a}{b}', f'preamp {a}{b}'):
+            e = {'uid': uid, 'type': 'Edfa'}
+            if amp_variety:
+                e['type_variety'] = amp_variety
+                e['operational'] = dict(amp_operational or {})
+            els.append(e)
+        els.append({'uid': f'fiber {a}{b}', 'type': 'Fiber', 'type_variety': 'SSMF',
+                    'params': {'length': 60, 'length_units': 'km', 'loss_coef': 0.2, 'con_in': 0.5, 'con_out': 0.5}})
+        cx += [{'from_node': f'roadm {a}', 'to_node': f'booster {a}{b}'},
+               {'from_node': f'booster {a}{b}', 'to_node': f'fiber {a}{b}'},
+               {'from_node': f'fiber {a}{b}', 'to_node': f'preamp {a}{b}'},
+               {'from_node': f'preamp {a}{b}', 'to_node': f'roadm {b}'}]
+    return {'elements': els, 'connections': cx}
 
 
 # ------------------------------------------------------------------------------------- recording shipped networks
@@ -343,14 +398,15 @@ def some_paths(net, rng, n):
 
 
 def record_paths(eq, req, paths):
-    """[(path description, [Recording events])] of the real propagate() over each path"""
+    """generator of (path description, [Recording events]) of the real propagate() over each path.  It is a GENERATOR on
+    purpose: the caller projects the events of one path (which read state the elements keep from their last crossing:
+    Edfa.effective_gain / nf / pout_db, Roadm.loss_pch_db ...) before the next path is propagated; within one path every
+    element is crossed once."""
     from gnpy.topology.request import propagate
-    out = []
     for path in paths:
         with Recording(keep_element=True) as rec:
             propagate(path, copy.copy(req), eq)
-        out.append((f'{path[0].uid}->{path[-1].uid}', rec.take()))
-    return out
+        yield f'{path[0].uid}->{path[-1].uid}', rec.take()
 
 
 def gain_set_of(ev, gains):
@@ -374,6 +430,16 @@ def mutate_source(owner, name, old, new, static=False):
     ns = {}
     exec(compile(src.replace(old, new), f'<mutant {name}>', 'exec'), vars(inspect.getmodule(fn)), ns)   # noqa: S102
     setattr(owner, name, staticmethod(ns[name]) if static else ns[name])
+
+
+def require_witnesses(chk, module, cfg_head, probes, tag):
+    """vacuity guard: every probe is the NEGATION of a clause antecedent stated as an invariant; TLC must violate each
+    (i.e. find a reachable witness), otherwise the clause would hold vacuously in the bounded model"""
+    for p in probes:
+        r = tlc.run(module, cfg_text=cfg_head + f'\nINVARIANT {p}\n', timeout=900, tag=tag)
+        if r.violated != p:
+            raise Machinery(f'{module}: no witness for {p} (vacuous clause?) {r.error or ""}')
+    chk.cov['antecedent_witnesses_found'] = list(probes)
 
 
 # ------------------------------------------------------------------------------------------------------ the judge
